@@ -10,34 +10,36 @@ Open Scope Z_scope.
 Definition ex_prog : list pseg :=
   [mkPSeg "lag(X" "" (BLabelSlice (Some "2001") (Some "2003") None) "";
    mkPSeg ", 1) + Y" " " (BLabel "2004") " ";
-   mkPSeg " * Z" "" (BPosIndex 0) "";
-   mkPSeg " - X" "" (BPosOpenStop (Some 1) (Some 2)) ""].
+   mkPSeg " * Z" " " (BPlain "a-1") "";
+   mkPSeg " - X" "" (BPlain "1:3") ""].
 
-Example ex_prog_text : program_text ex_prog " - 1" = "lag(X[`2001`:`2003`], 1) + Y[ `2004` ] * Z[0] - X[1::2] - 1".
+Example ex_prog_text : program_text ex_prog " - 1" = "lag(X[`2001`:`2003`], 1) + Y[ `2004` ] * Z[ a-1] - X[1:3] - 1".
 Proof. vm_compute. reflexivity. Qed.
 
 Example ex_prog_ok : Forall pseg_ok ex_prog /\ has_char ch_open " - 1" = false.
 Proof.
-  split; [|reflexivity].
-  repeat constructor; try (vm_compute; reflexivity); cbn; lia.
+  split; [|reflexivity]. unfold ex_prog.
+  repeat (apply Forall_cons; [|]); try apply Forall_nil; unfold pseg_ok;
+    cbn [ps_pre ps_ws1 ps_ws2 ps_b b_ok olab_ok st_ok lab_ok];
+    repeat split; try exact I; try (left; discriminate); vm_compute; reflexivity.
 Qed.
 
 Example ex_prog_dst :
-  Forall2 (fun p t => b_dst ex_gl ex_ct ex_sp_range (ps_b p) = Ret t) ex_prog ["[1:4:]"; "[4]"; "[0]"; "[1::2]"].
+  Forall2 (fun p t => ps_out ex_gl ex_ct ex_sp_range p = Ret t) ex_prog ["[1:4:]"; "[4]"; "[ a-1]"; "[1:3]"].
 Proof. repeat constructor. Qed.
 
 Example ex_prog_rewritten :
   rewrite (c10_has ex_ct ex_sp_range) (c10_locate ex_gl ex_sp_range) (program_text ex_prog " - 1")
-  = Ret "lag(X[1:4:], 1) + Y[4] * Z[0] - X[1::2] - 1".
+  = Ret "lag(X[1:4:], 1) + Y[4] * Z[ a-1] - X[1:3] - 1".
 Proof.
-  rewrite (program_rewrite ex_gl ex_ct ex_sp_range ex_prog ["[1:4:]"; "[4]"; "[0]"; "[1::2]"] " - 1"
+  rewrite (program_rewrite ex_gl ex_ct ex_sp_range ex_prog ["[1:4:]"; "[4]"; "[ a-1]"; "[1:3]"] " - 1"
              (proj1 ex_prog_ok) (proj2 ex_prog_ok) ex_prog_dst).
   vm_compute. reflexivity.
 Qed.
 
 Example ex_prog_positions :
   map (b_positions ex_gl ex_ct ex_sp_range 5) (map ps_b ex_prog)
-  = [Some [1; 2; 3]%nat; Some [4]%nat; Some [0]%nat; Some [1; 3]%nat].
+  = [Some [1; 2; 3]%nat; Some [4]%nat; None; None].
 Proof. vm_compute. reflexivity. Qed.
 
 Example ex_prog_plain : Forall (fun p => b_plain ex_gl ex_ct ex_sp_range (ps_b p)) ex_prog.
@@ -47,6 +49,6 @@ Proof. repeat constructor; cbn; try exact I. intros x y. vm_compute. discriminat
 Example ex_prog_first_error :
   b_dst ex_gl ex_ct ex_sp_range (BLabel "1999") = Raise KeyError /\
   rewrite (c10_has ex_ct ex_sp_range) (c10_locate ex_gl ex_sp_range)
-    (program_text [mkPSeg "X" "" (BPosIndex 1) ""; mkPSeg " + Y" "" (BLabel "1999") ""; mkPSeg " + Z" "" (BLabel "2000") ""] "")
+    (program_text [mkPSeg "X" "" (BPlain "1") ""; mkPSeg " + Y" "" (BLabel "1999") ""; mkPSeg " + Z" "" (BLabel "2000") ""] "")
   = Raise KeyError.
 Proof. split; vm_compute; reflexivity. Qed.
